@@ -58,6 +58,10 @@ impl Prop for C04P {
                         v.push(Recv::direct_long(c, r).enc());
                     }
                 }
+                // windows with lines of 9 cells (beyond the block sizes of chunked or unrolled loops)
+                v.push(Recv::window(11, 3, (1, 0), (10, 3)).enc());
+                v.push(Recv::window(11, 4, (1, 1), (10, 3)).enc());
+                v.push(Recv::window(3, 11, (0, 1), (2, 10)).enc());
                 // a sample of nested windows: every window of the central 3x3 window of a 5x5 parent
                 for (s2, e2) in windows_nonempty(3, 3) {
                     v.push(Recv::nested(5, 5, (1, 1), (4, 4), s2, e2).enc());
